@@ -65,6 +65,29 @@ CLAIMED["C06"] = dict(
     note=COMMON_NOTE + " Not decided: 0<v<1, v+<v-, T+>Tn, weak-vs-strong selection by the numerical bracket, monotonicity of T(vw).",
     design="3 (C06)")
 
+CLAIMED["C17"] = dict(
+    level="proof",
+    text=("Grid and Grid3Scales on a generic point of the open compact cube: the reported Jacobian equals d(decompactify)/d(compact coordinate) in "
+          "all three directions (for the five-term three-scale map too); every Jacobian is positive under the class invariant (three-scale position "
+          "map: proved through lemmas - structure of the Jacobian, each smoothed step contributes smoothing*L/r at the centre, monotone/bounded "
+          "sigmoid, bilinear lower bound (1-smoothing) L/r); compact origin -> wall centre, p_z(0)=0, p_par(-1)=0; centre slope = L/r with aIn/aOut "
+          "from _updateParameters (closed forms proved); Grid.compactify and decompactify are mutually inverse; after every change*FalloffScale the "
+          "cached coordinates and Jacobians equal the maps of the current parameters. Known finding F3: the inverse offered by Grid3Scales."),
+    note=COMMON_NOTE + " Requires smoothing < 1 (documented in the class docstring, not asserted by the code; for smoothing > 1 the Jacobian is "
+         "negative near the ends). artanh(u+0j).real is read as Re artanh with derivative u'/(1-u^2). Large equational goals are normalised by "
+         "polynomial expansion (sympy) before the solver sees them. Not decided: that callers pass smoothing < 1.",
+    design="3 (C17)")
+CLAIMED["C19"] = dict(
+    level="proof",
+    text=("helpers.derivative / gradient / hessian interpreted on a generic polynomial with symbolic coefficients (tables read from the AST each "
+          "run): every stencil row selected on every path (interior, one and two steps from either bound) is exact for all polynomials of degree "
+          "<= points-1, all x and all steps h; with bounds the function is never evaluated outside [lo,hi] when hi-lo >= W*h (W=2,4,3,5, and each W "
+          "is shown to be least); gradient components/axis selection (also negative and permuted axes, per-variable steps, step from scale and "
+          "epsilon) for 2 and 3 variables; Hessian stencils exact to total degree order+1 with dx_i*dx_j divisor and axis selection."),
+    note=COMMON_NOTE + " Rounding is not modelled ((x+dx)-x == dx exactly). Bounded and labelled as such in the evidence: output shape for array "
+         "inputs is checked for length-2 arrays / a (2,2) batch only; 3-variable order-4 gradient uses degree 2 per variable.",
+    design="3 (C19)")
+
 NOT_APPLICABLE = {
     "C11": "RK45 phase tracing interleaved with BFGS re-minimisation on an arbitrary potential: the content is the numerical behaviour of external routines; no contract within reach expresses or decides it (DESIGN section 4)",
     "C20": "values of improper integrals of transcendental integrands, 2x10000 table rows and quad: not decidable by SMT; checking rows against the integral is numerical testing, a different family (DESIGN section 4)",
